@@ -61,7 +61,10 @@ def run_demo(d, tree, work):
             env["TAPKEE"] = exe
             env["TAPKEE_BIN"] = exe
         try:
-            r = sh(["bash", shd, tree], env=env, cwd=work, timeout=1800)
+            arg = tree
+            if os.path.exists(shd) and re.search(r"\$\{1:-[^}]*bin/tapkee\}", open(shd).read()):
+                arg = env.get("TAPKEE", tree)       # the script takes the CLI binary, not the tree, as $1
+            r = sh(["bash", shd, arg], env=env, cwd=work, timeout=1800)
         except subprocess.TimeoutExpired:
             return 124, "timeout"
         return r.returncode, r.stdout[-600:]
